@@ -213,6 +213,10 @@ func genArgFault(r *Rng, d *DeclSpec, p *Plan, twinCalls []Call) (f ArgFault, ok
 				continue
 			}
 			b := baseKind(t.Kind)
+			if b == "vv" && t.Role == "val" && len(oi.O.Choices) == 0 {
+				cands = append(cands, i) // a value handed over as a word of its own goes past the option's validator
+				continue
+			}
 			if len(oi.O.Choices) > 0 || strings.Contains(b, "int") || strings.Contains(b, "float") || b == "duration" || b == "um" {
 				if isFuncKind(t.Kind) && !strings.Contains(t.Kind, "int") {
 					continue
@@ -237,6 +241,11 @@ func genArgFault(r *Rng, d *DeclSpec, p *Plan, twinCalls []Call) (f ArgFault, ok
 			f.Expect = "invalid choice"
 		case baseKind(t.Kind) == "um":
 			bad = "bad1"
+		case baseKind(t.Kind) == "vv":
+			bad = "!refused"
+			f.Expect = "expected argument"
+		case (t.Kind == "int8" || t.Kind == "uint8" || t.Kind == "uint16") && oi.O.Base == 0 && r.Bool():
+			bad = map[string]string{"int8": "300", "uint8": "256", "uint16": "70000"}[t.Kind] // a number the type cannot hold
 		case isMapKind(t.Kind):
 			if strings.Contains(mapKeyKind(t.Kind), "int") {
 				bad = "x!y:v"
